@@ -1,6 +1,32 @@
 PENDING_REASON = "check not yet implemented in this revision of /verif (planned in DESIGN.md; property-based testing applies)"
 NOTE = "trusted base: Go toolchain, rapid v1.3.0, the third-party modules the repository links, and the reference model in /verif (validated against the repository's own example tests and by mutation runs)"
+def _t(text, ref, tech, note=None):
+    return {"text": text, "ref": ref, "technique": tech, "note": note or NOTE}
+
+EXPL = " Exploration: the space is sampled (16 shards x tens of thousands of generated cases in the thorough tier), not exhausted; a pass means no counter-example was found within the stated generator domain."
 TEXT = {
+ "C01": _t("generated event histories drive a real MotionProcessor (real detector, real ring buffer); the motion sink's call trace is checked against the invariants of the statement (consecutive ids, disjoint ordered recordings, tiling when the previous end is within pre-trigger reach)." + EXPL,
+           "DESIGN.md section 4, C01", "property-based testing (rapid): generated histories, history invariant on the sink trace, shrinking to a JSON replay"),
+ "C02": _t("same harness as C01; the frames written at each trigger are compared with the index formula of the statement (full preview before the trigger, cut only by start-up or the previous recording's end)." + EXPL,
+           "DESIGN.md section 4, C02", "property-based testing (rapid): generated histories against a closed-form oracle for the pre-trigger frames"),
+ "C03": _t("same harness; every recording's length from the trigger frame is compared with the least-terminal-offset rule built from the detector's reported motion bits, including min=0, min=max and cap hits." + EXPL,
+           "DESIGN.md section 4, C03", "property-based testing (rapid): generated motion patterns against a declarative length rule"),
+ "C04": _t("same harness with window clock trajectories on/around the boundaries (1 ns either side, windows over midnight) and generated disk-check/start outcomes; storage must be asked exactly when the statement's conjunction holds (window evaluated by an independent closed form)." + EXPL,
+           "DESIGN.md section 4, C04", "property-based testing (rapid): generated histories x clock trajectories x refusal plans against an iff-oracle on the sink trace"),
+ "C07": _t("generated FFC-free streams with boundary-valued pixels; Detect() and the processor's MotionDetected callbacks are compared frame by frame with a reference detector written from the statement." + EXPL,
+           "DESIGN.md section 4, C07", "property-based testing (rapid): differential against an independent reference detector"),
+ "C08": _t("pairs of streams differing only in border pixels (fixed and dynamic threshold) or in sub-threshold interior pixels (fixed): detection, background, threshold and recording boundaries must be identical, also through the raw-frame Process() path." + EXPL,
+           "DESIGN.md section 4, C08", "property-based testing (rapid): metamorphic relation over generated stream pairs"),
+ "C09": _t("generated telemetry timelines with FFC periods of any length; invariant (no motion within 10 s of an FFC nor on the following frame) plus metamorphic pairs sharing the timeline and differing only before an FFC period / reset." + EXPL,
+           "DESIGN.md section 4, C09", "property-based testing (rapid): history invariant + metamorphic pairs with a reference-detector witness for non-triviality"),
+ "C12": _t("generated event lists x fault plans over every call type of the three sinks; bracket-protocol monitors, panic capture, bounded length under failing writes, and exact recovery on a fault-free suffix." + EXPL,
+           "DESIGN.md section 4, C12", "property-based testing (rapid) with fault injection on mock sinks; protocol monitor + recovery oracle"),
+ "C15": _t("generated dynamic-threshold streams; background/threshold invariants read in-package after every frame, both on a bare detector and inside a MotionProcessor, and at every StartRecording." + EXPL,
+           "DESIGN.md section 4, C15", "property-based testing (rapid): state invariants after every step"),
+ "C17": _t("generated valid-frame streams with test-recording requests; exact tiling oracle for the continuous sink, 21-frame oracle for the test sink, twin runs for independence from motion/window/requests." + EXPL,
+           "DESIGN.md section 4, C17", "property-based testing (rapid): exact oracle + metamorphic twins"),
+ "C20": _t("generated (message, arrival time) sequences with boundary-valued gaps against the model of the statement, the periodic corollary, and (thorough) every sequence of 7 arrivals over 2 messages x 4 gap classes." + EXPL,
+           "DESIGN.md section 4, C20", "property-based testing (rapid) against a reference model + small-scope exhaustive enumeration"),
  "C19": {
   "text": "generated operation sequences (capacity 1-9, <=60 ops) compared step by step with a list model of the statement; the thorough tier additionally enumerates every sequence of 11 operations for capacities 1-4. Exploration, not proof: capacities and lengths beyond the bounds are sampled only.",
   "ref": "DESIGN.md section 4, C19", "note": NOTE,
